@@ -455,14 +455,12 @@ Proof.
   intros autovars sw ee fc cf ml sw' fc' cf' ml' ts p H.
   eapply lint_accepts_param; [|exact H]. intros. eapply sim_format. eassumption.
 Qed.
-Print Assumptions env_errors_off_accepts_more.
 
 Theorem lint_accepts_what_normal_accepts :
   forall autovars switches fc cli_font cli_maxlen (ts : toks) p,
     parse_program autovars switches true (parse_format fc cli_font cli_maxlen true) ts = Ok p ->
     exists p', parse_program autovars [] false (parse_format fc_none [] 0%Z false) ts = Ok p'.
 Proof. intros. eapply env_errors_off_accepts_more. eassumption. Qed.
-Print Assumptions lint_accepts_what_normal_accepts.
 
 (* ================================================================================================================== *)
 (* PART 2: with the environment errors turned off no error is one of the environment errors                            *)
@@ -692,7 +690,6 @@ Proof.
   unfold envb in B. assert (X : existsb (text_eqb (emsg e)) env_messages = true); [|congruence].
   apply existsb_exists. exists (emsg e). split; [exact I|]. apply teq_iff. reflexivity.
 Qed.
-Print Assumptions lint_never_fails_for_missing_environment.
 
 (* ================================================================================================================== *)
 (* PART 3: the errors of the two runs                                                                                  *)
@@ -1050,7 +1047,6 @@ Proof.
   - right. left. exact D.
   - right. right. exact D.
 Qed.
-Print Assumptions compilation_error_is_environment_or_name_clash_or_lint_error.
 
 (* ================================================================================================================== *)
 (* consequences for source texts                                                                                        *)
@@ -1073,7 +1069,6 @@ Proof.
   - exfalso. exact (NoPanic.parser_never_panics _ _ _ _ _ _ _ E).
   - exfalso. exact (FuelOk.parser_never_out_of_fuel _ _ _ _ _ _ _ _ _ _ E).
 Qed.
-Print Assumptions lint_error_is_an_error_of_every_compilation.
 
 (* the answer of the lint parser to a source text is a program or a located error that is not an environment error *)
 Theorem lint_answer :
@@ -1088,7 +1083,6 @@ Proof.
   - exfalso. exact (NoPanic.parser_never_panics _ _ _ _ _ _ _ E).
   - exfalso. exact (FuelOk.parser_never_out_of_fuel _ _ _ _ _ _ _ _ _ _ E).
 Qed.
-Print Assumptions lint_answer.
 
 (* what the linter's error means for a real compilation of the same text: it fails too, and its error is the linter's own
    error unless it stops earlier at an environment error or ends with a name clash *)
@@ -1106,7 +1100,6 @@ Proof.
   - right. right. exact D.
   - left. rewrite H in D. inversion D. reflexivity.
 Qed.
-Print Assumptions lint_error_explained.
 
 (* ================================================================================================================== *)
 (* examples: the hypotheses are satisfiable, the statements are not vacuous, the converse of theorem 1 is false         *)
